@@ -288,7 +288,33 @@ fn prop(c: &Case) -> Verdict {
             })
         }
         b"cgraph" => guarded("cgraph", || {
-            let line = cgraph_line(f_str(c, 1));
+            let d = f_str(c, 1);
+            let line = cgraph_line(d);
+            if line.starts_with("ok") {
+                // an accepted file has the mandatory chunks with the sizes the accessors rely on:
+                // independent reading of the table of contents
+                let n = d[6] as usize;
+                let mut size = std::collections::BTreeMap::new();
+                for i in 0..n {
+                    let e = &d[8 + 12 * i..8 + 12 * (i + 1) + 12];
+                    let start = u64::from_be_bytes(e[4..12].try_into().expect("8"));
+                    let end = u64::from_be_bytes(e[16..24].try_into().expect("8"));
+                    size.entry(e[..4].to_vec()).or_insert((start, end.wrapping_sub(start)));
+                }
+                let fan = size.get(&b"OIDF"[..]).copied();
+                let oidl = size.get(&b"OIDL"[..]).copied();
+                let cdat = size.get(&b"CDAT"[..]).copied();
+                let good = match (fan, oidl, cdat) {
+                    (Some((fs, 1024)), Some((_, l)), Some((_, cd))) if fs as usize + 1024 <= d.len() => {
+                        let total = u32::from_be_bytes(d[fs as usize + 1020..fs as usize + 1024].try_into().expect("4")) as u64;
+                        l == total * 20 && cd == total * 36
+                    }
+                    _ => false,
+                };
+                if !good {
+                    return Verdict::fail("cgraph-accepted-invalid", format!("accepted with chunk sizes {fan:?} {oidl:?} {cdat:?}"));
+                }
+            }
             Verdict::ok(true, if line.starts_with("ok") { "cgraph-ok" } else { "cgraph-err" })
         }),
         b"fz" => {
@@ -497,6 +523,35 @@ fn gen_lref(rng: &mut Rng) -> Case {
     vec![tag("lref"), d]
 }
 
+/// an index with a valid EOIE and an IEOT whose offsets or counts are off (the threaded reader uses them)
+fn gen_index_ieot(rng: &mut Rng) -> Case {
+    let mut d = seeds::index(rng);
+    let mut pos = d.windows(4).position(|w| w == b"IEOT");
+    for _ in 0..20 {
+        if pos.is_some() {
+            break;
+        }
+        d = seeds::index(rng);
+        pos = d.windows(4).position(|w| w == b"IEOT");
+    }
+    if let Some(p) = pos {
+        let size = u32::from_be_bytes(d[p + 4..p + 8].try_into().expect("4")) as usize;
+        let rows = size.saturating_sub(4) / 8;
+        if rows > 0 && p + 8 + size <= d.len() {
+            let row = p + 12 + 8 * rng.below(rows as u64) as usize;
+            let len = d.len() as u32;
+            if rng.chance(3, 4) {
+                let v = *rng.pick(&[0u32, 11, 12, 13, len, len + 1, len - 20, u32::MAX, p as u32, p as u32 + 1]);
+                d[row..row + 4].copy_from_slice(&v.to_be_bytes());
+            } else {
+                let v = *rng.pick(&[0u32, 1, 1000, u32::MAX, 0x8000_0000]);
+                d[row + 4..row + 8].copy_from_slice(&v.to_be_bytes());
+            }
+        }
+    }
+    vec![tag("fz"), tag(if rng.chance(4, 5) { "index-mt" } else { "index" }), d, rng.bytes(2)]
+}
+
 fn gen(rng: &mut Rng, n: usize) -> Vec<Case> {
     let mut out: Vec<Case> = Vec::new();
     // boundary block: every entry point on the empty input, on each of its samples, and on a few fixed shapes
@@ -508,6 +563,7 @@ fn gen(rng: &mut Rng, n: usize) -> Vec<Case> {
         }
     }
     for _ in 0..20 {
+        out.push(gen_index_ieot(rng));
         out.push(gen_ewah(rng));
         out.push(gen_lref(rng));
         out.push(gen_chunk(rng));
@@ -519,6 +575,7 @@ fn gen(rng: &mut Rng, n: usize) -> Vec<Case> {
             4 | 5 => out.push(gen_lref(rng)),
             6 | 7 => out.push(gen_chunk(rng)),
             8 | 9 => out.push(gen_cgraph(rng)),
+            10 => out.push(gen_index_ieot(rng)),
             _ => {
                 let e = *rng.pick(entries::ENTRIES);
                 let d = gen_input(e, rng);
